@@ -83,13 +83,13 @@ Section Retain.
                h_align bl = h_align bl0 /\ b_size bl = b_size bl0 /\ b_align bl = b_align bl0 /\
                init_upto (slots bl) l /\
                Permutation (view (slots bl) l) (view (slots bl0) l) /\
-               ledger s = ledger s0 /\ vecs s = vecs s0 /\ iters s = iters s0 /\
+               ledger s = ledger s0 /\ next_elem s = next_elem s0 /\ vecs s = vecs s0 /\ iters s = iters s0 /\
                List.length (heap s) = List.length (heap s0) /\
                (forall b', b' <> b -> nth_error (heap s) b' = nth_error (heap s0) b').
 
   Lemma emit_keeps e s : exists s', emit e s = (Val tt, s') /\ heap s' = heap s /\ vecs s' = vecs s /\
-    ledger s' = ledger s /\ iters s' = iters s.
-  Proof. eexists. split; [reflexivity|]. simpl. auto. Qed.
+    ledger s' = ledger s /\ iters s' = iters s /\ next_elem s' = next_elem s.
+  Proof. eexists. split; [reflexivity|]. simpl. auto 6. Qed.
 
   Lemma expose_live s e : (tracked cfg = false \/ ledger s e = Live) -> expose cfg e s = (Val tt, s).
   Proof.
@@ -146,7 +146,7 @@ Section Retain.
     - simpl retain_loop.
       destruct (Z.leb_spec l read) as [Hdone|Hmore].
       { simpl. split; [lia|exact Hperm]. }
-      destruct Hperm as (bl & Hv & Hb & Hlen & Hcap & Hal & Hsz & Hbal & Hinit & Hp & Hled & Hvecs & Hit & Hhl & Hoth).
+      destruct Hperm as (bl & Hv & Hb & Hlen & Hcap & Hal & Hsz & Hbal & Hinit & Hp & Hled & Hnx & Hvecs & Hit & Hhl & Hoth).
       assert (Hco' : canon_off bl = Some off) by (unfold canon_off in *; rewrite Hbal; exact Hco).
       pose proof (bo_len _ _ Hb) as Hlb. rewrite Hlen in Hlb.
       simpl padd. rewrite ?Z.add_0_l.
@@ -157,11 +157,11 @@ Section Retain.
       assert (Hin : In er (view (slots bl) l)).
       { apply nth_error_In with (n := Z.to_nat read). rewrite view_nth by lia. rewrite Her. reflexivity. }
       rewrite (bind_val _ _ _ _ _ (expose_live s er (permuted_elems_live s0 s v b bl0 l bl Hv Hlen Hp Hled Hlive er Hin))).
-      destruct (emit_keeps (EvCall "p" [er]) s) as (s1 & Hem & Hh1 & Hv1 & Hl1 & Hi1).
+      destruct (emit_keeps (EvCall "p" [er]) s) as (s1 & Hem & Hh1 & Hv1 & Hl1 & Hi1 & Hnx1).
       rewrite (bind_val _ _ _ _ _ Hem).
       assert (Hperm1 : permuted s0 s1 v b bl0 l).
       { exists bl. destruct Hv as [Hva Hvb]. split; [split; [rewrite Hv1; exact Hva|rewrite Hh1; exact Hvb]|].
-        repeat (split; [assumption|]). split; [congruence|]. split; [congruence|]. split; [congruence|].
+        repeat (split; [assumption|]). split; [congruence|]. split; [congruence|]. split; [congruence|]. split; [congruence|].
         split; [rewrite Hh1; exact Hhl|]. intros b' Hb'. rewrite Hh1. apply Hoth. exact Hb'. }
       destruct (pop_script sc A_T) as [x sc'] eqn:Eps.
       destruct (Z.eqb_spec x A_P). { simpl. exact Hperm1. }
@@ -185,7 +185,7 @@ Section Retain.
             destruct (Z.eqb_spec k read); [rewrite Hew; eauto|]. apply Hinit. exact Hk. }
           split.
           { simpl. etransitivity; [|exact Hp]. apply view_swap_perm; lia. }
-          simpl. split; [congruence|]. split; [congruence|]. split; [congruence|].
+          simpl. split; [congruence|]. split; [congruence|]. split; [congruence|]. split; [congruence|].
           split; [rewrite list_set_length, Hh1; exact Hhl|].
           intros b' Hb'. rewrite list_set_other by congruence. rewrite Hh1. apply Hoth. exact Hb'.
   Qed.
